@@ -75,7 +75,7 @@ CHECKS["C09"] = dict(
 CHECKS["C10"] = dict(
     category="model_checking",
     technique="TLC-enumerated binding structures; invariant: path lookup of the code-generation scope = lexical scoping; replay with distinct constants per binder; implementation traces (hook events of the scope machines / builders, cargo feature verif) validated by TLC against TraceScopes.tla (typing-side lookups must return the nearest binding)",
-    text="Exhaustive (bounded) arrangements of nested blocks, pattern lets, match arms (also typed differently) and calls over three names; the value observed at "
+    text="Exhaustive (bounded) arrangements of nested blocks, pattern lets, match arms (also typed differently) and calls over three names, plus array / tuple patterns of 2..9 elements re-binding a name at every position (MC_ArrayPat); the value observed at "
          "each probe must be the one lexical scoping prescribes - in the model (scope/path translation) and in the real compiler.",
     note=PROG_NOTE, design="5 (C10)")
 
